@@ -38,3 +38,14 @@ Theorem C02_linearizable_partial : forall log commit_time occurs deposed,
   linearizable_by_log log commit_time occurs h.
 Proof. exact linearizable_partial. Qed.
 Print Assumptions C02_linearizable_partial.
+
+Theorem C02_srt_only_by_applied_strong_read : forall es srt t,
+  srt_run srt es = t -> srt = t \/ applied_in t es.
+Proof. exact srt_only_by_applied_strong_read. Qed.
+Print Assumptions C02_srt_only_by_applied_strong_read.
+
+Theorem C02_concurrent_first_reads_all_upgrade : forall srt0 es o,
+  srt0 <> lo_term o -> ~ applied_in (lo_term o) es ->
+  wait_lin (with_srt o (srt_run srt0 es)) = LinStrongNeeded.
+Proof. exact concurrent_first_reads_all_upgrade. Qed.
+Print Assumptions C02_concurrent_first_reads_all_upgrade.
